@@ -38,11 +38,17 @@ def run(ctx):
     ci = prog.cls(CLS)
 
     class M(Quiet):
-        pass
+        # private helpers (other than the index translators and the culling machinery, which are
+        # primitives of the rule) are seen in their caller's context
+        def inline(self, walker, op, callee, st):
+            rv = op.recv_val
+            return isinstance(rv, ast.Name) and rv.id == 'self' and callee.name.startswith('_') and \
+                not callee.name.startswith('__') and callee.name not in ('_cull', '_compact', '_add_dead', '_get_real_index',
+                                                                         '_get_apparent_index')
     # ---- remove / pop -----------------------------------------------------------
     for name in ('remove', 'pop'):
         f = prog.func('%s.%s' % (CLS, name))
-        w, paths = paths_of(prog, f, recv=ci)
+        w, paths = paths_of(prog, f, recv=ci, model=M(prog))
         for p in paths:
             if p.kind != 'return':
                 continue
